@@ -3,9 +3,11 @@
 package rest
 
 import (
+	"io"
 	"net/http"
 
 	"github.com/inbucket/inbucket/v3/pkg/message"
+	"github.com/inbucket/inbucket/v3/pkg/rest/model"
 	"github.com/inbucket/inbucket/v3/pkg/server/web"
 	"github.com/inbucket/inbucket/v3/pkg/storage"
 )
@@ -16,6 +18,7 @@ var _ = storage.ErrNotExist
 
 // Ghost response state (owned by the assumed contracts of net/http).
 func ghost_status(w http.ResponseWriter) int { panic("ghost") }
+func ghost_rendered(w io.Writer) any         { panic("ghost") }
 
 // ---------------------------------------------------------------------------------------------
 // C14: the REST v1 handlers report and change exactly what the manager holds.
@@ -43,6 +46,16 @@ func ghost_status(w http.ResponseWriter) int { panic("ghost") }
 //@   loop 1: decreases len(messages) - ridx
 //@   serves C14
 
+// spec_showsMsg: the rendered value is a v1 message document whose identifying and state fields are
+// those of the stored message (not of the request).
+//@ func spec_showsMsg
+//@   inline
+func spec_showsMsg(r any, name string, m *message.Message) bool {
+	j, ok := r.(*model.JSONMessageV1)
+	return ok && j != nil && m != nil && j.Mailbox == name && j.ID == m.ID && j.Subject == m.Subject &&
+		j.Size == m.Size && j.Seen == m.Seen && j.Date == m.Date
+}
+
 // Show: one GetMessage call with the canonical name and the id from the URL; a message that does
 // not exist is answered 404; no nil dereference; nothing is changed.
 //@ func MailboxShowV1
@@ -54,6 +67,9 @@ func ghost_status(w http.ResponseWriter) int { panic("ghost") }
 //@         message.Ghost_argBox(ctx.Manager) == message.Ghost_lastName(ctx.Manager) && message.Ghost_argID(ctx.Manager) == ctx.Vars["id"])
 //@   ensures[missing404] message.Ghost_nGetMsg(ctx.Manager) == old(message.Ghost_nGetMsg(ctx.Manager)) + 1 && message.Ghost_lastErr(ctx.Manager) == storage.ErrNotExist ==>
 //@      err == nil && ghost_status(w) == 404
+//@   ensures[reportsStored] err == nil && message.Ghost_nGetMsg(ctx.Manager) == old(message.Ghost_nGetMsg(ctx.Manager)) + 1 && message.Ghost_lastGot(ctx.Manager) != nil ==>
+//@      spec_showsMsg(ghost_rendered(w), message.Ghost_lastName(ctx.Manager), message.Ghost_lastGot(ctx.Manager))
+//@   loop 1: invariant msg == message.Ghost_lastGot(ctx.Manager) && name == message.Ghost_lastName(ctx.Manager)
 //@   loop 1: invariant 0 <= ridx && ridx <= len(attachParts) && len(attachments) == len(attachParts) && vcFresh(attachments) && message.Spec_msgOK(msg)
 //@   loop 1: invariant message.Ghost_nGetMsg(ctx.Manager) == old(message.Ghost_nGetMsg(ctx.Manager)) + 1 && message.Ghost_lastErr(ctx.Manager) != storage.ErrNotExist &&
 //@      message.Ghost_argBox(ctx.Manager) == message.Ghost_lastName(ctx.Manager) && message.Ghost_argID(ctx.Manager) == ctx.Vars["id"] &&
